@@ -427,6 +427,13 @@ def reference(nm, a, res, T=3e-5):
             exp = flat(rot3(a[:3], a[3])) + [0.0] * 3
             if not _close(res, exp, T * 8):
                 return "rotate(axis,angle): expected %s" % exp
+        elif op == "rotate_about" and n == 2:
+            p, r = a[:2], a[2]
+            c, sn = math.cos(r), math.sin(r)
+            R = [[c, sn], [-sn, c]]      # columns
+            exp = flat(R) + [x - y for x, y in zip(p, mat_vec(R, p))]
+            if not _close(res, exp, T * 64):
+                return "2D rotate about a point must fix that point and rotate by the angle: expected %s" % exp
         elif op == "rotate_about":
             p, u, r = a[:3], a[3:6], a[6]
             R = rot3(u, r)
